@@ -13,7 +13,10 @@ Import ListNotations.
 Local Open Scope string_scope.
 
 Inductive case :=
-| FGet (local_id req : string) (local : hanswer) (arrivals : list (string * hanswer))
+| FGet (local_id req : string) (local : hanswer)
+       (amp : N)                      (* API.MaxRequestAmplification: remote requests in flight at a time, 0 = no limit *)
+       (arrivals : list (string * hanswer))  (* every configured remote with its answer: the released ones in release order first *)
+       (unasked : list string)        (* remotes whose request never reached the transport before the client gave up *)
        (calls : list string)          (* cluster id ("" = local) of every request the stub transport received *)
        (res : fres)
 | FUuid (local_id remote : string) (known : bool) (a : hanswer) (calls : list string) (res : fres).
@@ -33,10 +36,34 @@ Definition is_hang (a : hanswer) : bool := match a with HHang => true | _ => fal
    silent and the model predicts a failure, either failure status is accepted; a relayed manifest never is. *)
 Definition failed (r : fres) : bool :=
   match r with FRes c None => N.eqb c 404 || N.eqb c 502 | _ => false end.
-Definition model_fget (req : string) (local : hanswer) (arr : list (string * hanswer)) (calls : list string) (res : fres) : bool :=
+(* Capacity: with MaxRequestAmplification = amp > 0 at most amp remote requests are in flight; a silent remote
+   keeps its slot for ever.  A remote is legitimately never asked only while every slot is held by a silent
+   remote; a remote that was never asked counts as silent. *)
+Definition mask (unasked : list string) (arr : list (string * hanswer)) : list (string * hanswer) :=
+  map (fun ra => if existsb (String.eqb (fst ra)) unasked then (fst ra, HHang) else ra) arr.
+Definition nhang (arr : list (string * hanswer)) : nat := List.length (filter (fun ra => is_hang (snd ra)) arr).
+(* the silent remotes cannot exhaust the capacity: every remote must get asked *)
+Definition must_ask (amp : N) (arr : list (string * hanswer)) : bool := N.eqb amp 0 || N.ltb (N.of_nat (nhang arr)) amp.
+Definition asked_part (unasked : list string) (arr : list (string * hanswer)) : list (string * hanswer) :=
+  filter (fun ra => negb (existsb (String.eqb (fst ra)) unasked)) arr.
+Definition model_fget (req : string) (local : hanswer) (amp : N) (arr0 : list (string * hanswer)) (unasked : list string)
+  (calls : list string) (res : fres) : bool :=
+  let arr := mask unasked arr0 in
   (fres_eqb (fan_get req local arr) res ||
    (existsb (fun ra => is_hang (snd ra)) arr && failed (fan_get req local arr) && failed res)) &&
-  perm_b calls (EmptyString :: if fan_remotes_asked local then map fst arr else []).
+  (* once an answer has been forwarded, a remote that was waiting for a slot may or may not still be asked before
+     everything is cancelled (goroutine timing): then only "local once, nobody but configured remotes" is demanded *)
+  (match unasked, res with
+   | _ :: _, FRes _ (Some _) =>
+     Nat.eqb (count EmptyString calls) 1 && forallb (fun c => (c =? EmptyString) || existsb (String.eqb c) (map fst arr0)) calls
+   | _, _ => perm_b calls (EmptyString :: if fan_remotes_asked local then map fst (asked_part unasked arr0) else [])
+   end) &&
+  (* once an answer has been forwarded the remaining remotes are not asked any more; otherwise a remote stays
+     unasked only while every slot is held by a silent remote *)
+  (match unasked, res with
+   | [], _ | _, FRes _ (Some _) => true
+   | _, _ => fan_remotes_asked local && N.eqb (N.of_nat (nhang (asked_part unasked arr0))) amp
+   end).
 Definition model_fuuid (remote : string) (known : bool) (a : hanswer) (calls : list string) (res : fres) : bool :=
   fres_eqb (fan_uuid known remote a) res && perm_b calls (if known then [remote] else []).
 
@@ -85,14 +112,22 @@ Definition spec_fuuid (remote : string) (known : bool) (a : hanswer) (res : fres
   | FRes c None => negb (known && honest "" a)
   end.
 
+(* availability of the honest answer: when the capacity cannot be exhausted by silent remotes, every configured
+   remote counts - also one that was never asked; otherwise the remotes that were asked *)
+Definition spec_fget2 (amp : N) (req : string) (local : hanswer) (arr : list (string * hanswer)) (unasked : list string) (res : fres) : bool :=
+  match res with
+  | FRes c (Some _) => spec_fget req local (mask unasked arr) res
+  | FRes c None => spec_fget req local (if must_ask amp arr then arr else mask unasked arr) res
+  end.
+
 Definition model_b (c : case) : bool :=
   match c with
-  | FGet lid req l arr calls res => model_fget req l arr calls res
+  | FGet lid req l amp arr un calls res => model_fget req l amp arr un calls res
   | FUuid lid r known a calls res => model_fuuid r known a calls res
   end.
 Definition spec_b (c : case) : bool :=
   match c with
-  | FGet lid req l arr calls res => spec_fget req l arr res
+  | FGet lid req l amp arr un calls res => spec_fget2 amp req l arr un res
   | FUuid lid r known a calls res => spec_fuuid r known a res
   end.
 Definition check_case (c : case) : N :=
